@@ -45,7 +45,6 @@ from vlib.refmodels import topo_model as TM
 
 EDITS = ["insert_end", "insert_front", "delete_first", "delete_last", "add_bond", "rename_atom", "rename_residue",
          "relabel"]
-CARRIERS = ("df", "h5", "pdb")
 
 
 # --------------------------------------------------------------------------------------------------
@@ -502,7 +501,6 @@ def run(ctx):
     samples = []
     max_atoms = 0
     for lvl in range(depth):
-        # big states first: better balance over the 16 workers
         jobs = [(i, h, ctx.scratch, ctx.seed) for (i, h) in frontier]
         outs = ctx.pmap(_job, jobs)
         nxt = []
